@@ -93,3 +93,135 @@ Check C09_accum_reset_forgets : forall pre a h,
   exists a', accum_reset a = (Done tt, a') /\ AInv (pre ++ h) a' [] /\ a_mem a' = a_mem a /\
   k_ffail (a_snk a') = k_ffail (a_snk a) /\ k_flushes (a_snk a') = k_flushes (a_snk a).
 Print Assumptions C09_accum_reset_forgets.
+
+From LZ Require Import Model.Lzma Format.RefEnc Proofs.SymDecode Proofs.OutOfWindowSym Proofs.OutOfWindow.
+
+(* end to end: a well-formed program followed by a copy (match, short rep, rep0-3) whose distance exceeds min(bytes produced, dictionary) is rejected with Err by lzma_decompress for every reader fragmentation, and the sink holds a prefix of the well-formed part's output - no fabricated bytes   [proved as lzma_out_of_window_rejected in Proofs/OutOfWindow.v] *)
+Theorem C09_lzma_out_of_window_rejected :
+  forall (fp : fprops) (dict_field : N) (good : list sym) (bad : sym) (hg : hist) (bflag : bool)
+    (bytes out_good trail : list N) (frag : N -> N) (k : snk) (fuel : positive) (ml : option N) 
+    (ai : bool),
+  f_lc fp <= 8 ->
+  f_lp fp <= 4 ->
+  f_pb fp <= 4 ->
+  dict_field < 2 ^ 32 ->
+  match ml with
+  | Some m => N.max dict_field 4096 <= m
+  | None => True
+  end ->
+  LzmaExact.no_marker good ->
+  sem_from (Some (N.max dict_field 4096)) hist0 good = Some (hg, bflag) ->
+  bad_copy (N.max dict_field 4096) hg bad ->
+  enc_lzma_gen true fp dict_field (2 ^ 64 - 1) (good ++ [bad]) 0 = Some (bytes, out_good) ->
+  k_wfail k = None ->
+  k_ffail k = false ->
+  (length good + 1 <= Pos.to_nat fuel)%nat ->
+  exists w' : io,
+    lzma_decompress fuel {| o_unpacked := ReadFromHeader; o_memlimit := ml; o_allow_incomplete := ai |}
+      {| i_src := src_of (bytes ++ trail) frag None; i_snk := k |} = (Failed ELzma, w') /\
+    sem (Some (N.max dict_field 4096)) good = Some out_good /\
+    (exists t : list N, snk_bytes k ++ out_good = snk_bytes (i_snk w') ++ t).
+Proof. exact (@lzma_out_of_window_rejected). Qed.
+Check C09_lzma_out_of_window_rejected :
+  forall (fp : fprops) (dict_field : N) (good : list sym) (bad : sym) (hg : hist) (bflag : bool)
+    (bytes out_good trail : list N) (frag : N -> N) (k : snk) (fuel : positive) (ml : option N) 
+    (ai : bool),
+  f_lc fp <= 8 ->
+  f_lp fp <= 4 ->
+  f_pb fp <= 4 ->
+  dict_field < 2 ^ 32 ->
+  match ml with
+  | Some m => N.max dict_field 4096 <= m
+  | None => True
+  end ->
+  LzmaExact.no_marker good ->
+  sem_from (Some (N.max dict_field 4096)) hist0 good = Some (hg, bflag) ->
+  bad_copy (N.max dict_field 4096) hg bad ->
+  enc_lzma_gen true fp dict_field (2 ^ 64 - 1) (good ++ [bad]) 0 = Some (bytes, out_good) ->
+  k_wfail k = None ->
+  k_ffail k = false ->
+  (length good + 1 <= Pos.to_nat fuel)%nat ->
+  exists w' : io,
+    lzma_decompress fuel {| o_unpacked := ReadFromHeader; o_memlimit := ml; o_allow_incomplete := ai |}
+      {| i_src := src_of (bytes ++ trail) frag None; i_snk := k |} = (Failed ELzma, w') /\
+    sem (Some (N.max dict_field 4096)) good = Some out_good /\
+    (exists t : list N, snk_bytes k ++ out_good = snk_bytes (i_snk w') ++ t).
+Print Assumptions C09_lzma_out_of_window_rejected.
+
+(* the same through the raw decoder for ANY dictionary size >= 1 (distances within the produced bytes but beyond a wrapped window)   [proved as raw_lzma_out_of_window_rejected in Proofs/OutOfWindow.v] *)
+Theorem C09_raw_lzma_out_of_window_rejected :
+  forall (fp : fprops) (pr : props) (dict : N) (us memlimit : option N) (good : list sym) 
+    (bad : sym) (hg : hist) (bflag : bool) (trail payload out_good : list N) (dec : lzma_decoder) 
+    (s : src) (k : snk) (fuel : positive),
+  props_match pr fp ->
+  1 <= dict ->
+  dict <= match memlimit with
+          | Some m => m
+          | None => USIZE - 1
+          end ->
+  LzmaExact.no_marker good ->
+  sem_from (Some dict) hist0 good = Some (hg, bflag) ->
+  bad_copy dict hg bad ->
+  enc_payload_gen true fp (Some dict) (good ++ [bad]) 0 = Some (payload, out_good) ->
+  match us with
+  | Some size => nlen out_good < size
+  | None => True
+  end ->
+  lzma_decoder_new {| pr_props := pr; pr_dict := dict; pr_unpacked := us |} memlimit = Done dec ->
+  IoLemmas.FaultFree s ->
+  s_rest s = payload ++ trail ->
+  k_wfail k = None ->
+  k_ffail k = false ->
+  (length good + 1 <= Pos.to_nat fuel)%nat ->
+  exists (dec' : lzma_decoder) (w' : io),
+    lzma_decoder_decompress fuel dec {| i_src := s; i_snk := k |} = (Failed ELzma, (dec', w')) /\
+    sem (Some dict) good = Some out_good /\
+    (exists t : list N, snk_bytes k ++ out_good = snk_bytes (i_snk w') ++ t).
+Proof. exact (@raw_lzma_out_of_window_rejected). Qed.
+Check C09_raw_lzma_out_of_window_rejected :
+  forall (fp : fprops) (pr : props) (dict : N) (us memlimit : option N) (good : list sym) 
+    (bad : sym) (hg : hist) (bflag : bool) (trail payload out_good : list N) (dec : lzma_decoder) 
+    (s : src) (k : snk) (fuel : positive),
+  props_match pr fp ->
+  1 <= dict ->
+  dict <= match memlimit with
+          | Some m => m
+          | None => USIZE - 1
+          end ->
+  LzmaExact.no_marker good ->
+  sem_from (Some dict) hist0 good = Some (hg, bflag) ->
+  bad_copy dict hg bad ->
+  enc_payload_gen true fp (Some dict) (good ++ [bad]) 0 = Some (payload, out_good) ->
+  match us with
+  | Some size => nlen out_good < size
+  | None => True
+  end ->
+  lzma_decoder_new {| pr_props := pr; pr_dict := dict; pr_unpacked := us |} memlimit = Done dec ->
+  IoLemmas.FaultFree s ->
+  s_rest s = payload ++ trail ->
+  k_wfail k = None ->
+  k_ffail k = false ->
+  (length good + 1 <= Pos.to_nat fuel)%nat ->
+  exists (dec' : lzma_decoder) (w' : io),
+    lzma_decoder_decompress fuel dec {| i_src := s; i_snk := k |} = (Failed ELzma, (dec', w')) /\
+    sem (Some dict) good = Some out_good /\
+    (exists t : list N, snk_bytes k ++ out_good = snk_bytes (i_snk w') ++ t).
+Print Assumptions C09_raw_lzma_out_of_window_rejected.
+
+(* symbol level: the decoder consumes exactly the bad symbol's events and fails without touching the history   [proved as process_next_inner_rejects_bad_copy in Proofs/OutOfWindowSym.v] *)
+Theorem C09_symbol_level_rejection :
+  forall (dict : N) (p : props) (fp : fprops) (st : N) (h : hist) (s : sym) (rest : list ev),
+  props_match p fp ->
+  bad_copy dict h s ->
+  interp (SymOracle.oracle (Some dict))
+    (process_next_inner p {| y_state := st; y_rep := SymOracle.reps_of h |} true)
+    (fst (sym_evs fp st h s) ++ rest, h) = (Failed ELzma, (rest, h)).
+Proof. exact (@process_next_inner_rejects_bad_copy). Qed.
+Check C09_symbol_level_rejection :
+  forall (dict : N) (p : props) (fp : fprops) (st : N) (h : hist) (s : sym) (rest : list ev),
+  props_match p fp ->
+  bad_copy dict h s ->
+  interp (SymOracle.oracle (Some dict))
+    (process_next_inner p {| y_state := st; y_rep := SymOracle.reps_of h |} true)
+    (fst (sym_evs fp st h s) ++ rest, h) = (Failed ELzma, (rest, h)).
+Print Assumptions C09_symbol_level_rejection.
